@@ -20,6 +20,7 @@ def body(ctx):
     process_timers(ctx, prog, viol)
     activity(ctx, prog, viol)
     several_expiries(ctx, prog, viol)
+    long_stall(ctx, prog, viol)
     timer_event_in_every_state(ctx, prog, viol)
     import c16
     c16.timers_and_timeout_around_the_handshake(ctx, prog)   # timers started with the negotiated value, timer events not swallowed during the handshake, connection timeout disarmed afterwards
@@ -234,6 +235,32 @@ def several_expiries(ctx, prog, viol):
                            sample={'expired': list(kinds), 'result': out, 'frames': len(items)})
             if m is not None:
                 viol.append(('both-due', kinds, out, ctx.explain(m, c)))
+
+
+def long_stall(ctx, prog, viol, K=4):
+    """the transport takes nothing for several heartbeat intervals while data is queued (a broker under flow control): every tx expiry is
+    harmless - the connection is not given up by the client, what is queued stays queued"""
+    # nothing was written in any of the intervals, so every tx timer expiry finds its interval fully elapsed (the timer arithmetic itself
+    # is decided in `fire` / `process_timers`; here it is replaced by its outcome)
+    SV = prog.types.variants('HeartbeatState')
+    ex = mk_ex(ctx, prog, extra=[(r'^HeartbeatTimers::fire_tx$', lambda e_, s_, f_, a_: [(s_, Enum(SV.index('Expired'), {}, 'HeartbeatState'))])])
+    f = prog.method('Inner', 'process_heartbeat_timers')
+    h = z3.BitVec('h', 16)
+    timers, last_r, last_t, base, hns, pc = _two_timers(prog, None, h, ('Tx',) * K)
+    st, w = build_steady(prog, [], hb=timers)
+    st.pc += pc + [w.outbuf.len != 0]
+    st.roots['clock'] = Clock()
+    st.roots['clock'].reads.append(base)
+    n = 0
+    for (s, rv) in ex.run(st, f, [Ref(w.inner)]):
+        n += 1
+        w1 = s.roots['w']
+        out = err_name(prog, rv)
+        c = z3.BoolVal(False) if isinstance(rv, Panic) else z3.And(z3.BoolVal(out == 'Ok'), earlier_kept(w1))
+        m = ctx.decide(f"c17.long-stall#{n}", s.pc, c, group=f'{K} successive tx expiries with unsent data queued (a stall of several intervals): each is harmless, nothing queued is lost, the client does not give up',
+                       sample={'result': out})
+        if m is not None:
+            viol.append(('long-stall', out, ctx.explain(m, [c])))
 
 
 def timer_event_in_every_state(ctx, prog, viol):
@@ -459,6 +486,20 @@ def hb_replay(what):
         if r != "MissedServerHeartbeats" { bad.push(format!("state{}:{}", which, r)); }
         std::mem::forget(_h0);
     }
+'''
+    elif what == 'long-stall':
+        desc = 'h=1s: a frame is queued and the transport takes nothing for 3.3 s while the server keeps sending: every timer wake-up is Ok and the frame stays queued'
+        body = '''
+    let mut bad: Vec<String> = Vec::new();
+    { let mut i = mk_inner(); i.start_heartbeats(1); let mut fb = crate::frame_buffer::FrameBuffer::new(); let hbframe = vec![8u8, 0, 0, 0, 0, 0, 0, 0xCE];
+      i.outbuf.push_method(3, amq_protocol::protocol::basic::AMQPMethod::Ack(amq_protocol::protocol::basic::Ack { delivery_tag: 7, multiple: false }));
+      let before: Vec<u8> = (&i.outbuf[0..]).to_vec();
+      let mut rs: Vec<String> = Vec::new();
+      for k in 0..3 { sleep_ms(if k == 0 { 1300 } else { 1000 });
+        let mut s = VS { data: hbframe.clone(), pos: 0 }; let _ = i.read_from_stream(&mut s, &mut fb, |_, _| Ok(()));   // the server is alive
+        rs.push(res_name(i.process_heartbeat_timers())); }
+      let after: Vec<u8> = (&i.outbuf[0..]).to_vec();
+      if rs.iter().any(|r| r != "Ok") || after.len() < before.len() || after[..before.len()] != before[..] { bad.push(format!("stall-of-3-intervals:{:?}:{}->{}", rs, before.len(), after.len()).replace(' ', "")); } }
 '''
     elif what == 'tx-activity':
         desc = 'h=1s: a successful write at 0.7 s postpones the next heartbeat beyond 1.3 s; client writes at 0.9 s and 1.8 s do not keep a silent server alive at 2.4 s'
